@@ -11,6 +11,7 @@ class Engine(DbEngine):
             "(NUL-suffixed, 181/182/183/476/477 bytes); >= 50% of ops are stores designed to fail (duplicate, deleted by id/address, "
             "replaced, invalid delete at tag k of n, oversize address key); after every op a full observation dump (every id, every "
             "address, entry counters, extra tables). oracle: dump identical before/after each failing store; results equal the abstract store. "
+            "Plus failures the environment causes: under a soft RLIMIT_FSIZE no file may grow, stores that need room fail with an I/O error at whatever step extends a file; the dump before and after each failed store must be identical (implementation only). "
             "non-trivial = distinct history with >= 2 stores")
     trusted = DbEngine.db_trusted
     assumptions = ["event-map bytes (stats.event_bytes) may grow on a failed store: explicitly outside the property"]
@@ -52,4 +53,85 @@ class Engine(DbEngine):
                 if n_ >= n:
                     parts.append("; " + obs)
             out.append(("big-failing-request", " ".join(parts)))
+        return out + self.io_cases(rng, tier)
+
+    # ---- failures the environment causes: no file may grow (soft RLIMIT_FSIZE), so a store that needs room fails with an
+    # I/O error at whichever step tries to extend a file. Judged on the implementation alone: whatever a FAILED store did
+    # before failing, the observation dump before and after it must be identical.
+    def skip_model(self, gcls):
+        return gcls == "io-failure"
+
+    def io_cases(self, rng, tier):
+        import random
+        import common as C
+        from dbgen import HistGen, AUTHORS, fake_id
+        out = []
+        for i in range(12 if tier == "quick" else 300):
+            sub = random.Random(rng.getrandbits(64))
+            g = HistGen(sub, {"new": 3, "addr": 1}, sub.choice([0, 2, 5])).run()
+            obs = lambda: "obs %s %s" % (C.tl(C.tb(i_) for i_ in g.ids), C.tl("%s %s %s" % (C.tn(k_), C.tb(a_), C.tb(d_)) for k_, a_, d_ in g.addrs))
+            pre = [g.render_op(op) for op in g.ops]
+            post = []
+            me, other = AUTHORS[0], AUTHORS[1]
+            # a large event map first: the limit then leaves LMDB's data file (much smaller) room to commit, while the
+            # event map itself cannot grow by another chunk
+            for j in range(sub.choice([5, 6, 8])):
+                big = g.new_event(kind=1, pk=other, tags=[])
+                big["content"] = b"B" * sub.choice([40000, 50000, 60000])
+                big["id"] = fake_id(big)
+                pre.append("store " + C.t_event(big))
+            target = g.new_event(kind=1, pk=me, created=100, tags=[])
+            pre.append("store " + C.t_event(target))
+            post.append("fsizelimit " + C.tn(sub.choice([0, 0, 300, 700, 1500, 4000])))
+            for j in range(sub.choice([10, 14, 18])):
+                k = sub.random()
+                if k < 0.4:
+                    e = g.new_event(kind=sub.choice([1, 7, 30023]), pk=sub.choice(AUTHORS), tags=[[b"d", b"io"]])
+                    e["content"] = b"i" * sub.choice([10, 100, 200, 300, 900, 2500])
+                    e["id"] = fake_id(e)
+                elif k < 0.7:
+                    e = g.new_event(kind=5, pk=me, created=5000 + j, tags=[[b"e", target["id"].hex().encode()]])
+                else:
+                    e = g.new_event(kind=1, pk=other, tags=[[b"t", b"x"]])
+                    e["content"] = b"s" * sub.choice([0, 50, 400])
+                    e["id"] = fake_id(e)
+                post.append("store " + C.t_event(e))
+            post.append("fsizeunlimit")
+            post.append("store " + C.t_event(g.new_event(kind=1, pk=other, tags=[])))
+            o = obs()
+            line = "dbhist " + C.tl(C.tb(n_) for n_ in g.names) + "".join(" ; " + x for x in pre) + " ; " + o + "".join(" ; " + x + " ; " + o for x in post)
+            out.append(("io-failure", line))
         return out
+
+    def judge(self, gcls, line, model_out, impl_outs):
+        if gcls != "io-failure":
+            return super().judge(gcls, line, model_out, impl_outs)
+        import re
+        from engine import Verdict
+        from dbjudge import parse_obs
+        o = impl_outs[self.profiles[0]]
+        if not o.startswith("dbhist "):
+            return Verdict(oracle_ok=False, cls="process-died", detail=o[:100], outcome="died")
+        segs = o[len("dbhist "):].split(" | ")
+        ops = [x.split(" ", 1)[0] for x in line.split(" ; ")[1:]]
+        if len(segs) != len(ops):
+            return Verdict(corr_ok=False, cls="unparsable-output", detail="%d segments for %d ops" % (len(segs), len(ops)), outcome="unparsable")
+        last_obs, nfail = None, 0
+        for j, (op, seg) in enumerate(zip(ops, segs)):
+            if seg == "panic":
+                return Verdict(oracle_ok=False, cls="panics", detail="op %d (%s) panicked" % (j, op), outcome="panic")
+            if op == "obs":
+                cur = parse_obs(seg)
+                cur.pop("stats.bytes", None)
+                cur.pop("offs", None)
+                if last_obs is not None and pending_fail and cur != last_obs:
+                    diff = [k for k in cur if cur.get(k) != last_obs.get(k)]
+                    return Verdict(oracle_ok=False, cls="failed-store-changed-state",
+                                   detail="a store that returned %s (no file may grow) changed %s" % (pending_fail, ",".join(diff)), outcome="changed")
+                last_obs, pending_fail = cur, None
+            elif op == "store":
+                pending_fail = seg if seg.startswith("err") else None
+                nfail += 1 if pending_fail else 0
+            else:
+                pending_fail = None
+        return Verdict(outcome="io-ok/%s" % ("some-failed" if nfail else "none-failed"), nontrivial=True)
